@@ -128,6 +128,25 @@ def run(ck):
             ctor['classification_mode'] = 'zero_one'
             y = (y > 0).astype(y.dtype); yv = (yv > 0).astype(yv.dtype); y[0] = 0; y[1] = 1; yv[0] = 0; yv[1] = 1
             desc['solver'] = f'log_reg ({place})'; desc['cmode'] = 'zero_one'
+        # boundary overlap: overlap_fraction = 0.5 with one forced split — BOTH leaves receive every training row; a first pass finds how many validation rows the
+        # left leaf gets, the second pass sets the refill size to exactly that number, so the refill moves nothing but still permutes that leaf's rows:
+        # a leaf that holds all n training rows in another order than the training matrix
+        boundary = (i % 9 == 7) and not flat_gate
+        if boundary:
+            ctor.update(overlap_fraction=0.5, number_of_splits=1, max_leaf_size=10_000, refill_size=0, split_method='top_vector_agop_on_subset', n_tree_iters=0, n_trees=1)
+            ctor.pop('fixed_vector', None)
+            xr.seed_all(3100 + i + ck.seed)
+            probe = xr.xRFM(**copy.deepcopy(ctor))
+            try:
+                with xr.quiet():
+                    probe.fit(torch.tensor(X), torch.tensor(y), torch.tensor(Xv), torch.tensor(yv))
+                t0_ = probe.trees[0]
+                if t0_['type'] != 'leaf':
+                    nleft = int((torch.tensor(Xv) @ t0_['split_direction'] <= t0_['split_point']).sum())
+                    ctor['refill_size'] = nleft
+                    desc.update(boundary_overlap=True, refill_size=nleft); ck.count('boundary overlap 0.5, refill size = routed validation rows of the left leaf')
+            except Exception as e:
+                ck.notes.append(f'boundary probe fit failed: {e!r}'[:200])
         xr.seed_all(3100 + i + ck.seed)
         src = xr.xRFM(**copy.deepcopy(ctor))
         try:
